@@ -709,3 +709,29 @@ def mutated_in_place(body, locals_):
             if d["kind"] == "mutcall":
                 return (d["block"], None)
     return None
+
+
+def co_param_index(body, name):
+    """Upvar index of the async fn's parameter `name` in its coroutine body (the parameter is field idx of _1)."""
+    l = co_params(body).get(name)
+    if l is None:
+        return None
+    for bi, i, s in body.stmts():
+        if bi == 0 and s["k"] == "assign" and not s["place"]["proj"] and s["place"]["local"] == l and s["rv"]["k"] == "use":
+            p = op_place(s["rv"]["op"])
+            if p is not None and p["local"] == 1 and len(p["proj"]) == 1 and isinstance(p["proj"][0], dict) and "field" in p["proj"][0]:
+                return p["proj"][0]["idx"]
+    return None
+
+
+def handed_on_unchanged(body, operand, name):
+    """Is `operand` the coroutine's own parameter `name`, handed on as it is (no call, no arithmetic, no other source)?"""
+    idx = co_param_index(body, name)
+    od = body.origin_def(operand)
+    if idx is None or not (od and od[0] == "place" and od[1]["local"] == 1):
+        return False
+    nd = [e for e in od[1]["proj"] if e != "deref"]
+    if not (len(nd) == 1 and isinstance(nd[0], dict) and nd[0].get("idx") == idx):
+        return False
+    sl = body.slice_op(operand)
+    return not sl.callee_names() and not [d for d in sl.assigns if d["stmt"]["rv"]["k"] in ("binop", "unop", "aggregate")]
